@@ -69,6 +69,20 @@ static void op_nt_inv(int argc, char **argv) {
 	FIN1(c);
 }
 
+/* nt_inv_sim <m> <a0> <a1> ... : simultaneous inversion; every result array entry starts from junk */
+static void op_nt_inv_sim(int argc, char **argv) {
+	if (argc < 3) { fprintf(OUT, "bad-args\n"); return; }
+	int n = argc - 2, caught = 0;
+	bn_t m, a[16], c[16];
+	if (n > 16) n = 16;
+	NEW(m); tok_bn(m, argv[1]);
+	for (int i = 0; i < n; i++) { NEW(a[i]); tok_bn(a[i], argv[2 + i]); NEW(c[i]); bn_set_dig(c[i], 0x55); }
+	RLC_TRY { bn_mod_inv_sim(c, (const bn_t *)a, m, n); } RLC_CATCH_ANY { caught = 1; }
+	if (take_err() || caught) fprintf(OUT, "err");
+	else for (int i = 0; i < n; i++) { if (i) fputc(' ', OUT); bn_out(c[i]); }
+	fputc('\n', OUT);
+}
+
 /* nt_gcd <variant> <a> <b> */
 static void op_nt_gcd(int argc, char **argv) {
 	if (argc < 4) { fprintf(OUT, "bad-args\n"); return; }
@@ -238,7 +252,7 @@ static void op_nt_lag(int argc, char **argv) {
 }
 
 const op_t ops_nt[] = {
-	{"nt_mod", op_nt_mod}, {"nt_mxp", op_nt_mxp}, {"nt_mxp_sim", op_nt_mxp_sim}, {"nt_inv", op_nt_inv}, {"nt_gcd", op_nt_gcd},
+	{"nt_mod", op_nt_mod}, {"nt_mxp", op_nt_mxp}, {"nt_mxp_sim", op_nt_mxp_sim}, {"nt_inv", op_nt_inv}, {"nt_inv_sim", op_nt_inv_sim}, {"nt_gcd", op_nt_gcd},
 	{"nt_gcd_ext", op_nt_gcd_ext}, {"nt_smb", op_nt_smb}, {"nt_srt", op_nt_srt}, {"nt_prime", op_nt_prime},
 	{"nt_gen_prime", op_nt_gen_prime}, {"nt_rec", op_nt_rec}, {"nt_evl", op_nt_evl}, {"nt_lag", op_nt_lag},
 	{NULL, NULL}
